@@ -431,7 +431,7 @@ class Checker:
         c0 = ";".join(f"{i}={v}" for i, v in enumerate(op["cells0"]))
         c1 = ";".join(f"{i}={v}" for i, v in enumerate(op["cells1"]))
         first = lambda cs: csvs([c[0] for c in cs])  # noqa: E731  (arrays are constant-filled)
-        copy = int(not self.rows["converter"]["constByRefSites"])
+        copy = 1  # the model is the fixed code (b4400e5); a by-reference site is a regression, never followed
         self.model_lines.append((f"globr {pre} {g} {c0} {c1}", f"before={first(res['consts'])} after={first(res.get('consts_after', res['consts']))} copy={copy}", case))
         self.stats["ndarray_scripts"] += 1
         self.stats["ndarray_scripts_inplace_touching_body" if op.get("inplace_payload_in_body") else "ndarray_scripts_not_touching"] += 1
@@ -662,7 +662,7 @@ def main(run: core.Run) -> None:
                       {"k": "kwseq", "decos": [{"producer_name": 1}], "fns": [0], "calls": [[0, {"ir_version": 9, "io_types": 7}]], "target": [0, {"doc_string": 2}]}]
             kw_ops += [G.gen_kwseq(run.rng)[0] for _ in range(run.size(40, 400))]
             chk.kwseq(kw_ops)
-            n_targets = run.size(60, 600)
+            n_targets = run.size(60, 450)
             n_hist = run.size(3, 4)
             bad_rows = [r["name"] for r in rows["rules"] + rows["ortRules"] if not extract_stash.row_ok(r) and r["name"] != "CosSinCacheFusion"]
             pairs = []
@@ -755,6 +755,11 @@ def main(run: core.Run) -> None:
         case, what = chk.tie_failures[0]
         run.violation({**case, "broken": "correspondence OV.Model.C14History vs implementation", "others": len(chk.tie_failures) - 1},
                       "correspondence broken: " + what + "; no history/seed found on which a result differs from the fresh-process result",
+                      no_input=True)
+    if rows["converter"]["constByRefSites"] and not chk.prop_failures:
+        run.violation({"broken": "OV.Props.C14.constants_snapshotted", "constByRefSites": rows["converter"]["constByRefSites"]},
+                      "regression of C14-N1: Converter." + ", Converter.".join(rows["converter"]["constByRefSites"])
+                      + " pass the user's object to ir.tensor() without a snapshot, but no generated script showed a changed proto",
                       no_input=True)
     if not audit["ok"]:
         bad = run.coverage["stash_table"]["rows_not_ok"] + run.coverage["stash_table"]["ort_rows_not_ok"]
